@@ -15,7 +15,7 @@ ASSUMPTIONS = [
     "on-disk variant: see C11 (VFS model); rotating variant: see C10",
 ]
 BOUNDS = {
-    "quick": "hash values in [0,2^64) and, for the geometries up to 16 bits, in [-2^64, 2^65]; geometries (est,fpr) -> bits/hashes: (1,.9)->1/1, (1,.5)->2/1, (1,.3)->3/2, (2,.3)->6/2, (1,.05)->7/5, (3,.28)->8/2, (3,.25)->9/2, (3,.2)->11/3, (4,.25)->12/2, (5,.3)->13/2, (5,.22)->16/2, (10,.05)->63/4 (every residue of the bit count modulo 8); expanding filters with 1..3 sub-filters; histories of 3 adds",
+    "quick": "hash values in [0,2^64) and, for the geometries up to 16 bits, in [-2^64, 2^65]; geometries (est,fpr) -> bits/hashes: (1,.9)->1/1, (1,.5)->2/1, (1,.3)->3/2, (2,.3)->6/2, (1,.05)->7/5, (3,.28)->8/2, (3,.25)->9/2, (3,.2)->11/3, (4,.25)->12/2, (5,.3)->13/2, (5,.22)->16/2, (10,.05)->63/4 (every residue of the bit count modulo 8); expanding filters with 1..3 sub-filters; histories of 3 adds; add/check/`in` with the library's default strategy (real FNV code on both sides) on a fixed list of 13 text and bytes keys - empty, ASCII, accents composed/decomposed, CJK, astral, NUL, Latin-1 edge, bytes >= 0x80: a sample of the key space - from an arbitrary bit array on the geometries up to 16 bits",
     "thorough": "adds (4,.06)->24/4, (7,.1)->34/3, (4,.01)->39/7 for the core step, each also with hash values in [-2^64, 2^65]; histories of 4 adds",
     "outside": "more than 63 bits / 7 hashes (192 and 1438 bits were decided on an idle machine but are not part of the tier: their queries time out under load), more than 3 sub-filters; actual md5/sha256/fnv values (covered as arbitrary integers; FNV itself is C18)",
 }
